@@ -142,6 +142,8 @@ def check(repo: Repo) -> Result:
 
     r6 = res.rule("C10-R6", "a deep copy of a registry keeps its default unit system, so in_base() on a copied quantity stays inside that system (shared with C11-R3)", floor=1)
     share(res, r6, "C11", lambda t: c11.rebuilt_from_table(repo, t), ["C11-R3"], want=lambda k: k == "__deepcopy__:unit-system")
+    r8 = res.rule("C10-R8", "the cgs / mks shorthands name their system: in_cgs / in_mks / convert_to_cgs / convert_to_mks / get_cgs_equivalent / get_mks_equivalent reach the base conversion with the literal 'cgs' / 'mks' (never the registry's default system) and convert_to_base threads its unit_system (shared with C03-R1)", floor=6)
+    share(res, r8, "C03", lambda t: c03.delegation(repo, t), ["C03-R1"], want=lambda k: k in ("thread:convert_to_base->convert_to_units", "thread:convert_to_cgs->convert_to_units", "thread:convert_to_mks->convert_to_units", "in_cgs->in_base(cgs)", "in_mks->in_base(mks)", "get_cgs_equivalent->get_base_equivalent(cgs)", "get_mks_equivalent->get_base_equivalent(mks)", "in_base-target"), min_keys=6)
     from rules import memo_rules
 
     r7 = res.rule("C10-R7", "the memoised electromagnetic route keeps unit systems apart: a cached function keyed by a unit system either sees it by identity or by an equality that covers everything the cached answer is computed from (a user system redefined under the same name must not be served the old system's base units)", floor=1)
